@@ -229,6 +229,7 @@ def gen_pairs(a):
 
 
 def explore(ctx):
+    ctx.use_thorough_bounds('thorough bounds take about ten seconds')
     k = ctx.pick(7, 10)
     k2 = ctx.pick(3, 5)
     kl = ctx.pick(30, 48)
